@@ -702,4 +702,18 @@ theorem accepted_literals_never_collide (h : Hasher) (s₁ s₂ : String) (t₁ 
 /-- not vacuous: the last representable instant, written with the largest fraction and the most negative offset, is accepted -/
 example : (parseTime "9999-12-31T23:59:59.999999999-23:59").isSome = true := by decide
 
+/-! ### towards the other composition (`civilFromDays ∘ daysFromCivil = id` on valid dates - not yet proved as a whole) -/
+
+/-- the year of the era is recovered from the day of the era the parser computes from it: for every year of the era and every day
+    of that (March-based) year, day 365 only where the year has one. `omega` needs the 4 x 5 x 2 split on the three quotients. -/
+theorem yoe_recovered (yoe doy doe : Int) (h0 : 0 ≤ yoe ∧ yoe ≤ 399) (h1 : 0 ≤ doy)
+    (h2 : doy ≤ 364 ∨ (doy = 365 ∧ (yoe + 1) % 4 = 0 ∧ ((yoe + 1) % 100 ≠ 0 ∨ yoe = 399)))
+    (hdoe : doe = yoe * 365 + yoe / 4 - yoe / 100 + doy) :
+    (doe - doe / 1460 + doe / 36524 - doe / 146096) / 365 = yoe := by
+  have hd : yoe / 100 = 0 ∨ yoe / 100 = 1 ∨ yoe / 100 = 2 ∨ yoe / 100 = 3 := by omega
+  have hr : 0 ≤ doe ∧ doe < 146097 := by omega
+  have hf : doe / 36524 = 0 ∨ doe / 36524 = 1 ∨ doe / 36524 = 2 ∨ doe / 36524 = 3 ∨ doe / 36524 = 4 := by omega
+  have hg : doe / 146096 = 0 ∨ doe / 146096 = 1 := by omega
+  rcases hd with hd | hd | hd | hd <;> rcases hf with hf | hf | hf | hf | hf <;> rcases hg with hg | hg <;> omega
+
 end Gsp.Props.C04
